@@ -305,6 +305,42 @@ def kauri_sequences(ctx, rs, reps):
                                   expected=exp, actual=act, key=f"kauri-sequence:{check}", how=how)
 
 
+def zero_column_groups(ctx, rs, reps):
+    """sparse linear models with feature groups on data where every feature of one group is an all-zero column: those weights get no
+    gradient and are shrunk to EXACTLY zero within a few steps; the fit must still end in a coherent model (finite data, accepted
+    configuration)"""
+    E = fl.estimators()
+    how = "<SparseLinear*>(groups=..., alpha=5, learning_rate=0.02, max_iter=60).fit(X) with X[:, group] = 0"
+    for rep in range(reps):
+        for name in ("SparseLinearModel", "SparseLinearMMD", "SparseLinearMI"):
+            n, d, K = 12, 4, 2
+            X = fl.small_data(rs, n, d)
+            X[:, [2, 3]] = 0.0
+            groups = [[[0, 1], [2, 3]], [[0, 1]], [[2, 3]]][rep % 3]        # the second is completed by singleton groups of zero columns
+            kw = dict(n_clusters=K, groups=groups, alpha=5.0, learning_rate=0.02, max_iter=60, solver=["sgd", "adam"][rep % 2],
+                      random_state=int(rs.randint(100)))
+            inp = {"estimator": name, "params": kw, "X": X.tolist()}
+            ctx.case(("zero-group", name, json.dumps(kw, sort_keys=True), X.tobytes()), True, None)
+            ctx.count("zero-column-group-fits")
+            try:
+                model = E[name](**kw).fit(X)
+            except Exception as e:
+                ctx.violation(f"{name}: fit raised {type(e).__name__}: {str(e)[:160]} on data with an all-zero feature group", "fit", inp,
+                              key=f"fit-raises:zero-group:{name}", how=how)
+                continue
+            msg = proba_ok(model.predict_proba(X), n, K)
+            lab = np.asarray(model.labels_)
+            if msg is None and not (np.asarray(model.predict(X)) == lab).all():
+                msg = "predict(X_train) differs from labels_"
+            if msg is None and not np.isfinite(model.score(X)):
+                msg = "score is not finite"
+            if msg is None and not all(np.isfinite(np.asarray(w, dtype=float)).all() for w in model._get_weights()):
+                msg = "non-finite weights"
+            if msg:
+                ctx.violation(f"{name} with groups {groups} on data whose columns 2 and 3 are zero: {msg}", "proba", inp,
+                              key=f"proba:zero-group:{name}", how=how)
+
+
 def refit(ctx, name, row, rs, info, model, X, y):
     """the SAME estimator object fitted a second time on other data (same or larger sample count): the second fit must
     give a coherent model of the NEW data (labels of the new length, predict = arg-max = labels_, score = GEMINI of the new
@@ -428,6 +464,7 @@ def run(ctx):
             if res is not None and name in KIND and (ctx.tier != "quick" or idx % 3 == 0):
                 fitted.append((name, res[0], res[1]))
     kauri_sequences(ctx, rs, 4 if ctx.tier == "quick" else 40)
+    zero_column_groups(ctx, rs, 3 if ctx.tier == "quick" else 12)
     cap = 50 if ctx.tier == "quick" else 500
     chosen, seen = [], {}
     for name, model, X in fitted:
